@@ -257,9 +257,17 @@ impl EventGen for GroupElement {
             events.push(OutputEvent::Start(new_el));
 
             if let Some(inner_events) = self.0.inner_events(context) {
-                let (ev_list, bb) = process_events(inner_events, context)?;
-                content_bb = bb;
-                events.extend(&ev_list);
+                match process_events(inner_events, context) {
+                    Ok((ev_list, bb)) => {
+                        content_bb = bb;
+                        events.extend(&ev_list);
+                    }
+                    Err(e) => {
+                        // pop variables off the stack before propagating the error
+                        context.pop_element();
+                        return Err(e);
+                    }
+                }
             }
 
             events.push(OutputEvent::End(el_name));
